@@ -143,14 +143,12 @@ Record st := mkst {
   prev : str          (* Shell.previous_dir *)
 }.
 
-(** Proposed repairs that are NOT in the tree yet (notes/C09-fix-3..5.patch).  The model is
-    parametric in them so that the same theorems cover the code before and after each repair;
-    the check instantiates the flags with what the tree under test contains.
-      fx_export  export.rs: export NAME=v also removes the shell-local NAME
-      fx_read    read.rs / tools.rs: the line is cut into at most as many fields as there are names (splitn)
-      fx_cd      cd.rs: cd without argument takes HOME like a reference does (environment, then shell
-                 variable) and fails when there is none *)
-Record fixes := mkfx { fx_export : bool; fx_read : bool; fx_cd : bool }.
+(** A proposed repair that is NOT in the tree yet (notes/C09-fix-6.patch).  The model is
+    parametric in it so that the same theorems cover the code before and after the repair.
+      fx_read    read.rs / tools.rs: read cuts the line with split_into_fields_n (at most as many
+                 fields as names, the last one the rest of the line verbatim; with the default IFS
+                 runs of blanks separate) instead of split_into_fields + join with blanks *)
+Record fixes := mkfx { fx_read : bool }.
 
 (** shell.rs set_env *)
 Definition set_env (s : st) (n v : str) : st :=
@@ -199,19 +197,19 @@ Inductive outcome :=
 Definition expand_home (w : world) (v : str) : str :=
   if memb c_tilde v then w_tilde w v else v.
 
-Definition export_set (fx : fixes) (s : st) (n v : str) : st :=
-  if fx_export fx then mkst (adel (locals s) n) (aset (envp s) n v) (cwd s) (prev s)
-  else env_set s n v.
+(** export.rs (217a8a1): set the environment variable and remove the shell-local one *)
+Definition export_set (s : st) (n v : str) : st :=
+  mkst (adel (locals s) n) (aset (envp s) n v) (cwd s) (prev s).
 
-Fixpoint export_loop (fx : fixes) (w : world) (s : st) (toks : list token) : st * bool :=
+Fixpoint export_loop (w : world) (s : st) (toks : list token) : st * bool :=
   match toks with
   | [] => (s, true)
   | (_, text) :: r =>
-      if str_eqb text s_export then export_loop fx w s r
+      if str_eqb text s_export then export_loop w s r
       else if negb (is_env text) then (s, false)
       else match split_env_strict text with
            | None => (s, false)
-           | Some (n, v) => export_loop fx w (export_set fx s n (expand_home w (unquote v))) r
+           | Some (n, v) => export_loop w (export_set s n (expand_home w (unquote v))) r
            end
   end.
 
@@ -251,20 +249,38 @@ Fixpoint break_sep (seps : str) (s : str) : str * option str :=
               else let (f, o) := break_sep seps r in (c :: f, o)
   end.
 
-(** str::splitn(k, chars): at most k items, the last one is the rest of the text *)
-Fixpoint splitn_on (seps : str) (k : nat) (s : str) : list str :=
+(** trim_start_matches / trim_matches with the separator predicate *)
+Fixpoint drop_seps (seps : str) (s : str) : str :=
+  match s with
+  | c :: r => if memb c seps then drop_seps seps r else s
+  | [] => []
+  end.
+Definition trim_seps (seps : str) (s : str) : str := rev (drop_seps seps (rev (drop_seps seps s))).
+
+(** tools.rs split_into_fields_n (proposed): one walk over the line.
+      while fields.len() + 1 < n { if default { skip the separator run };
+                                   find the next separator: push the text before it, continue after it;
+                                   none: break }
+      if default { trim separators at both ends of the rest }; push the rest
+    k = n - fields.len() *)
+Fixpoint fields_loop (dflt : bool) (seps : str) (k : nat) (rest : str) : list str :=
   match k with
   | O => []
-  | S k' => match k' with
-            | O => [s]
-            | S _ => let (f, o) := break_sep seps s in
-                     f :: match o with Some r => splitn_on seps k' r | None => [] end
-            end
+  | S k' =>
+      match k' with
+      | O => [if dflt then trim_seps seps rest else rest]
+      | S _ =>
+          let rest1 := if dflt then drop_seps seps rest else rest in
+          match break_sep seps rest1 with
+          | (f, Some r) => f :: fields_loop dflt seps k' r
+          | (_, None) => [if dflt then trim_seps seps rest1 else rest1]
+          end
+      end
   end.
 
 Definition split_into_fields_n (s : st) (line : str) (envs : alist) (k : nat) : list str :=
   let ic := ifs_chars s envs in
-  if is_empty ic then splitn_on default_seps k line else splitn_on ic k line.
+  if is_empty ic then fields_loop true default_seps k line else fields_loop false ic k line.
 
 Fixpoint join_sp (l : list str) : str :=
   match l with
@@ -296,7 +312,7 @@ Definition read_run (fx : fixes) (s : st) (envs : alist) (toks : list token) (he
 (* ------------------------------------------------------------------ cd.rs *)
 Definition concat_strs (l : list str) : str := fold_right (fun a b => a ++ b) [] l.
 
-Definition cd_run (fx : fixes) (w : world) (s : st) (toks : list token) : st * outcome :=
+Definition cd_run (w : world) (s : st) (toks : list token) : st * outcome :=
   let args := map snd toks in
   if (2 <? N.of_nat (length args)) then (s, OStatus false)
   else
@@ -304,8 +320,7 @@ Definition cd_run (fx : fixes) (w : world) (s : st) (toks : list token) : st * o
     let noarg := Nat.eqb (length args) 1 in
     let dir0o : option str :=
       if noarg then
-        (if fx_cd fx then expand_lookup s s_HOME
-         else Some (match aget (envp s) s_HOME with Some h => h | None => [] end))
+        expand_lookup s s_HOME   (* 5a6a746: the environment, then a shell variable; none: error *)
       else Some (concat_strs (tl args)) in
     match dir0o with
     | None => (s, OStatus false)
@@ -350,9 +365,9 @@ Definition run_proc (fx : fixes) (w : world) (s : st) (toks : list token) (here 
   match rest with
   | [] => (set_shell_vars s envs, OStatus true)
   | (_, c0) :: _ =>
-      if str_eqb c0 s_cd then cd_run fx w s rest
+      if str_eqb c0 s_cd then cd_run w s rest
       else if str_eqb c0 s_export then
-        let (s', ok) := export_loop fx w s rest in (s', OStatus ok)
+        let (s', ok) := export_loop w s rest in (s', OStatus ok)
       else if str_eqb c0 s_read then read_run fx s envs rest here
       else if str_eqb c0 s_unset then unset_run s rest
       else (s, OChild (map snd rest) (child_env (envp s) envs) (cwd s))
